@@ -186,6 +186,54 @@ def judge_arith(calls, workers=8, heap_mb=2048, timeout=1800):
     return out, res
 
 
+_INTR = re.compile(r'^"<<\\"INTR\\", (\d+), \{(.*)\}>>"\s*$', re.M)
+
+
+def judge_intr(recs, workers=8, heap_mb=1024, timeout=900):
+    tmp = tempfile.mkdtemp(prefix='vtr-')
+    try:
+        path = os.path.join(tmp, 'recs.ndjson')
+        with open(path, 'w') as f:
+            for t in recs:
+                f.write(json.dumps(t, separators=(',', ':')) + '\n')
+        nw = max(1, min(workers, len(recs)))
+        cfg = 'INIT Init\nNEXT Next\nINVARIANT Judged\nCONSTANTS\n  NW = %d\n' % nw
+        res = tlc('TraceInterrupt', cfg, env={'TRACE_FILE': path}, workers=nw, heap_mb=heap_mb, timeout=timeout)
+    finally:
+        shutil.rmtree(tmp, ignore_errors=True)
+    if res['out'].count('INTRDONE') != nw or res['distinct'] != len(recs):
+        i = res['out'].find('Error:')
+        raise Machinery('TLC judged %d of %d crash points:\n%s' % (res['distinct'], len(recs), res['out'][i:i + 2500] if i >= 0 else res['out'][-2500:]))
+    out = {}
+    for m in _INTR.finditer(res['out']):
+        out[int(m.group(1))] = re.findall(r'\\"([^"\\]+)\\"', m.group(2))
+    return out, res
+
+
+_RENDER = re.compile(r'^"<<\\"RENDER\\", (\d+), (\{.*\})>>"\s*$', re.M)
+
+
+def judge_render(recs, workers=8, heap_mb=2048, timeout=900):
+    tmp = tempfile.mkdtemp(prefix='vtr-')
+    try:
+        path = os.path.join(tmp, 'recs.ndjson')
+        with open(path, 'w') as f:
+            for t in recs:
+                f.write(json.dumps(t, separators=(',', ':')) + '\n')
+        nw = max(1, min(workers, len(recs)))
+        cfg = 'INIT Init\nNEXT Next\nINVARIANT Judged\nCONSTANTS\n  NW = %d\n' % nw
+        res = tlc('TraceRender', cfg, env={'TRACE_FILE': path}, workers=nw, heap_mb=heap_mb, timeout=timeout)
+    finally:
+        shutil.rmtree(tmp, ignore_errors=True)
+    out = {}
+    for m in _RENDER.finditer(res['out']):
+        out[int(m.group(1))] = [(a, int(b)) for a, b in _PFAIL.findall(m.group(2))]
+    if set(out) != set(t['id'] for t in recs):
+        i = res['out'].find('Error:')
+        raise Machinery('TLC judged %d of %d renderings:\n%s' % (len(out), len(recs), res['out'][i:i + 2500] if i >= 0 else res['out'][-2500:]))
+    return out, res
+
+
 _PAIR = re.compile(r'^"<<\\"PAIR\\", (\d+), (TRUE|FALSE), (\{.*\})>>"\s*$', re.M)
 _PFAIL = re.compile(r'<<\\"([^"\\]*)\\", (\d+)>>')
 
